@@ -76,6 +76,10 @@ fn seg_dec_eq(a: &[u8], b: &[u8]) -> bool {
 /// Path::suffix: Some exactly when both are absolute or both relative and the
 /// prefix's normalised segments lead the value's; then the remaining segments.
 fn path_suffix<const N: usize, const K: usize>() {
+    path_suffix_r::<N, K, 2>()
+}
+
+fn path_suffix_r<const N: usize, const K: usize, const R: usize>() {
     let t = Text::<N>::any();
     let a = t.bytes();
     assume(uri::Path::new(a).is_ok());
@@ -109,7 +113,7 @@ fn path_suffix<const N: usize, const K: usize>() {
             assert!(tables::t_uri_path_valid_k(out, N + 3), "C16: suffix() is not a valid path");
             let gl = SegList::of(&split_path(out));
             assert!(lists_equal_mod_shield(a, &rest, out, &gl), "C16: suffix() is not the remaining segments");
-            cover!(rest.n >= 2, "two or more remaining segments");
+            cover!(rest.n >= R, "R or more remaining segments (R = 2, or 1 at the smallest bound)");
             forget(s);
         }
     }
@@ -193,4 +197,14 @@ pub fn c16_uri_suffix_n7() {
 #[cfg_attr(kani, kani::stub(smallvec::SmallVec::push, crate::stubs::sv_push))]
 pub fn c16_path_suffix_rep4_n5() {
     path_suffix::<5, 4>()
+}
+
+// @h prop=C16 tier=thorough kind=check timeout=1800 mem=20 bound="uri::Path value <= 2 bytes x prefix 'a'" encodes="PathImpl::suffix;NormalizedSegmentsImpl;utils::pct_eq;PathMutImpl::push (Vec growth from empty: one allocation of the harness capacity)"
+#[cfg_attr(kani, kani::proof)]
+#[cfg_attr(kani, kani::unwind(8))]
+#[cfg_attr(kani, kani::stub(std::vec::Vec::resize, crate::stubs::vec_resize))]
+#[cfg_attr(kani, kani::stub(smallvec::SmallVec::try_grow, crate::stubs::sv_try_grow))]
+#[cfg_attr(kani, kani::stub(smallvec::SmallVec::push, crate::stubs::sv_push))]
+pub fn c16_path_suffix_rep2_n2() {
+    path_suffix_r::<2, 2, 1>()
 }
